@@ -26,6 +26,8 @@ G2 = pb.PEL(pb.SRC(ascii=b"BD8D2222", flags=1, callouts=_co()), ph=dict(eid=0x50
 J = pb.PEL(pb.SRC(ascii=b"BD8D3333", flags=1, callouts=_co()), pb.UD(b"\x01\x02\x03\x04\x05", comp=0x4321),
            ph=dict(eid=0x50000003, plid=0x50000001))
 
+FULL_DECODE = ("a", "ahex", "j", "bmc")
+READS_UP_TO = {"n": 72, "nE": 72, "l": 292, "lrev": 292, "plid": 292, "plidhex": 292, "src": 292}    # J: PH 0..48, UH ..72, SRC ..292
 MODES = ["l", "a", "n", "plid", "src", "j", "ahex", "lrev", "bmc", "nE", "plidhex"]
 KINDS = ["empty", "rand12", "trunc:60-76", "trunc:200-216", "trunc:296-305", "corrupt:0-4", "corrupt:48-52", "corrupt:72-76",
          "corrupt:83-84", "corrupt:212-214", "corrupt:214-215", "corrupt:215-216", "corrupt:154-156", "corrupt:156-157", "corrupt:186-187", "subdir", "subdir-ext",
@@ -177,9 +179,11 @@ def h_isolate() -> bool:
     elif kind.startswith("trunc"):
         a, b = [int(x) for x in kind.split(":")[1].split("-")]
         t = sym_int("t", a, b - 1)
+        tc = None
         for cand in range(a, b):
             if t == cand:
                 extra = J[:cand]
+                tc = cand
     elif kind.startswith("corrupt"):
         a, b = [int(x) for x in kind.split(":")[1].split("-")]
         vmax = int(kind.split(":v")[1]) if ":v" in kind else 255
@@ -216,8 +220,10 @@ def h_isolate() -> bool:
             alone_nothing = True
         else:
             w1, s1 = _run(good[:1] + [(name, extra)] + good[1:], mode)
-            if kind == "empty" or kind.startswith("trunc"):
-                # a proper prefix of a log (or nothing at all) is undecodable by construction, in every mode
+            if kind == "empty" or (kind.startswith("trunc") and (mode in FULL_DECODE or tc < READS_UP_TO[mode])):
+                # nothing at all, or a proper prefix that ends inside what this mode reads (the whole file for the
+                # displaying modes, the two headers for the count mode, headers + primary SRC for the summaries), is
+                # undecodable by construction; a cut beyond that is the mode's own business (C09 statement) - asked below
                 alone_nothing = True
             elif kind in ("corrupt:0-4", "corrupt:48-52") and bool(sym_any([sym_all([i == a + k, v != J[a + k]]) for k in range(2)])):
                 # a damaged 'PH' / 'UH' section id: the headers cannot be read
